@@ -46,7 +46,8 @@ ASSUMPTIONS = [
 
 EPS = float(np.finfo(np.float64).eps)
 EPS32 = float(np.finfo(np.float32).eps)
-KTOL = 200.0          # safety factor on eps * cond; calibrated, see CALIB below
+KTOL = 1000.0         # safety factor on eps * cond.  Measured honest maxima of err/(eps*cond) on the repaired tree, both tiers,
+                      # seeds 0..3: <= 10 for every family, 18 for compute_z_zprime_Q2d, 6 for clenshaw_qbfs_der (see CALIB)
 CALIB = None          # set to a dict by tools to record the honest error / (eps*cond) ratios
 
 
@@ -513,7 +514,8 @@ def run_qbfs_clenshaw(case, seed, R):
                 continue
             for i in range(1, j + 1):
                 got = 2 * (out[i][0] + (out[i][1] if L > 1 else 0.0))
-                close(R, got, orc.der(XQ, i), sum(orc.cond(XQ, i)), sig, f'2(alphas[{i}][0]+alphas[{i}][1]) vs d^{i}/dx^{i} S(x), cs={cs}, j={j}')
+                # the Qbfs -> Chebyshev-3 change of basis amplifies rounding in proportion to the number of terms
+                close(R, got, orc.der(XQ, i), L * sum(orc.cond(XQ, i)), sig, f'2(alphas[{i}][0]+alphas[{i}][1]) vs d^{i}/dx^{i} S(x), cs={cs}, j={j}')
     R.nontrivial(L >= 2 and k != 0)
     R.outcome('unit' if k >= 0 else 'dense')
 
